@@ -42,15 +42,15 @@ def create_single_letter_matches(plain, cmdline):
         if s[-1].isalpha():
             s = s + r'\b'
         return r'(' + s + r')'
-    accept = r'|'.join(f(s) for s in accept if s)
+    accept = list(f(s) for s in accept if s)
 
     #   a list of all occurences of accepted patterns
+    #   - NB: occurences may overlap, search for each pattern at each position
     #
-    if accept:
-        hits = list((m.start(0), m.end(0))
-                        for m in re.finditer(accept, plain))
-    else:
-        hits = []
+    hits = []
+    for expr in accept:
+        hits += list((m.start(1), m.end(1))
+                        for m in re.finditer(r'(?=' + expr + r')', plain))
 
     def msg(m):
         return create_message(m, rule='PRIVATE::SINGLE_LETTER',
